@@ -322,3 +322,24 @@ def c16(res):
                    "sequence (transient and permanent, io.Writer with and without WriteString) and a failing reader at offsets 0,1,n/2,n-1,n with "
                    "several error values; compared with the model's accepted chunks / call count / error; non-trivial = distinct (k, length, kind)",
                    thorough_runs=[("corr-rw", ["rw", "-policies", "40", "-docs", "50"])])
+
+
+RULE_ATTRS = ("theorems over the Coq model of sanitizeAttrs (all attribute lists, all policies, all matcher interpretations); tie: "
+              "VerifSanitizeAttrs (hook) vs the extracted model on generated (policy, element, attribute list) triples; oracle: the "
+              "property's post-condition evaluated on re-tokenised real output. non-trivial = cases whose attribute list is changed")
+
+
+@check("C11")
+def c11(res):
+    return generic(res, "C11", "Properties/C11.v", [ATTRS("link")], "C11",
+                   "the link-hardening block of sanitizeAttrs", RULE_ATTRS + "; generator: a/area/link/base elements, all 32 option combinations, "
+                   "1-4 attributes drawn from href (external, relative, invalid), rel (required words, words containing them, upper case, empty), target, id",
+                   thorough_runs=[ATTRS_T("link")])
+
+
+@check("C12")
+def c12(res):
+    return generic(res, "C12", "Properties/C12.v", [ATTRS("forced")], "C12",
+                   "the crossorigin and sandbox passes of sanitizeAttrs and RequireSandboxOnIFrame", RULE_ATTRS +
+                   "; generator: media/iframe elements, sandbox subsets (empty, full, the 14 singletons, random), repeated attributes, unknown tokens, mixed white space",
+                   thorough_runs=[ATTRS_T("forced")])
